@@ -2,8 +2,9 @@
 
    case fields:  [ <object expression> ; <names to query, space separated> ]
    expression (tokens separated by one space, prefix form):
-     expr  := "L" <k> field*k | "P" expr expr | "R" expr name | "M" z expr | "N" expr | "G" expr expr
+     expr  := "L" <k> field*k <j> assert*j | "P" expr expr | "R" expr name | "M" z expr | "N" expr | "G" expr expr
      field := name ("d"|"h"|"v") ("0"|"1") body
+     assert:= ("-" | <message number, hex>) body        (assert (body) != 0 : "m<number>")
      body  := "n" z | "u" | "s" name | "p" name | "i" name | "a" body body
      name  := code points in hex joined by '.', "-" for the empty name
    answer: observations "key=value" joined by ';' (see [handle]). *)
@@ -40,7 +41,14 @@ let parse_expr (toks : ostring list) : oexpr =
     | "L" ->
         let k = int_of_string (next ()) in
         let rec go i acc = if i = 0 then List.rev acc else go (i - 1) (field () :: acc) in
-        OLit (go k [])
+        let fs = go k [] in
+        let j = int_of_string (next ()) in
+        let asrt () : assertion =
+          let m = (match next () with "-" -> None | t -> Some (n_of_hex t)) in
+          let b = body () in
+          { a_cond = b; a_msg = m } in
+        let rec goa i acc = if i = 0 then List.rev acc else goa (i - 1) (asrt () :: acc) in
+        OLit (fs, goa j [])
     | "P" -> let a = expr () in let b = expr () in OPlus (a, b)
     | "R" -> let e = expr () in let nm = name_of (next ()) in ORemove (e, nm)
     | "M" -> let c = z_of_hex (next ()) in let e = expr () in OMapKey (c, e)
@@ -56,6 +64,8 @@ let show_err (e : everr) : ostring = match e with
   | ENoSuper -> "SuperWithoutSuperObject"
   | EInfinite -> "InfiniteRecursion"
   | EBadAdd -> "InvalidBinaryOpTypes"
+  | EAssert None -> "AssertFailed:-"
+  | EAssert (Some m) -> "AssertFailed:m" ^ hex_of_n m
 
 let show_value (v : value) : ostring = match v with
   | VNum z -> "v" ^ hex_of_z z
@@ -87,8 +97,8 @@ let handle (fields : ostring list) : ostring =
              "has=" ^ per (fun nm -> show_res bit (has_visible_field o nm));
              "fields=" ^ String.concat "," (List.map show_name (get_visible_fields_order o));
              "fieldsall=" ^ String.concat "," (List.map (fun (nm, _) -> show_name nm) (get_fields_order o));
-             "val=" ^ per (fun nm -> show_res show_value (eval_field o nm));
-             "man=" ^ show_res (fun l -> String.concat "," (List.map (fun (nm, v) -> show_name nm ^ ":" ^ show_value v) l)) (manifest o);
+             "val=" ^ per (fun nm -> show_res show_value (index_field o nm));
+             "man=" ^ show_res (fun l -> String.concat "," (List.map (fun (nm, v) -> show_name nm ^ ":" ^ show_value v) l)) (manifest_checked o);
            ]
        | r -> "B=" ^ show_res (fun _ -> "ok") r)
   | _ -> failwith "objects: bad case"
